@@ -218,11 +218,14 @@ void PrettyPrinter::expr_nary(kind_t kind, uint32_t num)
     default: throw TypeException("Invalid operator");
     }
 
-    string s = st.back();
-    st.pop_back();
-    while (--num) {
-        s = st.back() + opString + s;
+    string s;
+    if (num > 0) {
+        s = st.back();
         st.pop_back();
+        while (--num) {
+            s = st.back() + opString + s;
+            st.pop_back();
+        }
     }
     st.push_back("{ " + s + " }");
 }
